@@ -252,9 +252,10 @@ func (sm *Subscriptions) ProcessWhenTime(before Clock) []chan struct{} {
 	// collect all the ticked states
 	// TODO optimize?
 	allTicked := S{}
-	for state, t := range before {
-		// if changed, collect to check
-		if sm.clock[state] != t {
+	for state, t := range sm.clock {
+		// if changed, collect to check (states added by SetSchema have no entry
+		// in [before] until their first tick)
+		if before[state] != t {
 			allTicked = append(allTicked, state)
 		}
 	}
